@@ -103,6 +103,75 @@ def elf_scenarios(rng):
     return scs
 
 
+def exec_revoke_scenarios(rng):
+    """the execute permission is checked on EVERY fetch: after instructions have run from an area (the constructor's code
+    area or a second area), mem_prot takes PROT_EXEC away (and gives it back) and the next fetch from the same area follows
+    immediately"""
+    scs = []
+    k = 0
+    for mask in range(8):
+        for where in ("second", "code"):
+            for warm in (1, 3):
+                b = mc.Builder(f"xr{k}")
+                k += 1
+                if where == "second":
+                    b.api(op="mem_init_area", start=BASE, data=[0x90] * 32)
+                    b.api(op="mem_prot", start=BASE, prot=5)
+                    at = BASE
+                else:
+                    b.code += bytes([0x90] * 32)
+                    at = mc.CODE
+                for j in range(warm):
+                    b.fetch(at + j, mustrun=True)
+                b.api(op="mem_prot", start=at, prot=mask)
+                b.fetch(at + warm, mustrun=True)
+                b.fetch(at + warm + 1, mustrun=True)
+                b.api(op="mem_prot", start=at, prot=mask | 4)
+                b.fetch(at + warm + 2, mustrun=True)
+                b.api(op="mem_prot", start=at, prot=mask & 3)
+                b.fetch(at + warm + 3, mustrun=True)
+                scs.append(b.scenario())
+    return scs
+
+
+def abutting_scenarios(rng):
+    """two areas that touch: A [BASE, BASE+32) and B [BASE+32, BASE+64) with independent masks.  Accesses that start in
+    the last bytes of A and end in B (every write and read path, PUSH/CALL slots included) belong to neither area"""
+    scs = []
+    k = 0
+    wr = [t for t, v in mc.TEMPLATES.items() if v[1] in ("store", "sti", "rmw", "push")]
+    rd = [t for t, v in mc.TEMPLATES.items() if v[1] == "load"]
+    for ma, mb in ((3, 1), (3, 5), (3, 0), (3, 3), (1, 3), (2, 1), (1, 0), (3, 4)):
+        for path, w in API_PATHS:
+            b = mc.Builder(f"ab{k}")
+            k += 1
+            b.api(op="mem_init_area", start=BASE, data=[rng.randrange(1, 256) for _ in range(32)])
+            b.api(op="mem_init_area", start=BASE + 32, data=[rng.randrange(1, 256) for _ in range(32)])
+            b.api(op="mem_prot", start=BASE, prot=ma)
+            b.api(op="mem_prot", start=BASE + 32, prot=mb)
+            n = (w // 8) if w else 4
+            api_access(b, rng, path, w, BASE + 32 - (1 if n == 1 or path.endswith("bytes") else rng.randrange(1, n)))
+            api_access(b, rng, path, w, BASE + 32)
+            scs.append(b.scenario())
+        for t in wr + rd:
+            n = mc.TEMPLATES[t][2]
+            if n == 1:
+                continue
+            b = mc.Builder(f"ab{k}")
+            k += 1
+            b.api(op="mem_init_area", start=BASE, data=[rng.randrange(1, 256) for _ in range(32)])
+            b.api(op="mem_init_area", start=BASE + 32, data=[rng.randrange(1, 256) for _ in range(32)])
+            b.api(op="mem_prot", start=BASE, prot=ma)
+            b.api(op="mem_prot", start=BASE + 32, prot=mb)
+            if mc.TEMPLATES[t][1] == "push":
+                # RSP such that one of the candidate slots [rsp-8,rsp) / [rsp,rsp+8) straddles the border
+                b.guest(t, BASE + 32 + rng.choice([4, -4, 2, -2, 6, -6]))
+            else:
+                b.guest(t, BASE + 32 - rng.randrange(1, n))
+            scs.append(b.scenario())
+    return scs
+
+
 def prot_history_scenarios(rng, n, length):
     scs = []
     guest = list(mc.TEMPLATES)
@@ -150,7 +219,7 @@ def run(tier, seed):
         sc1 = mask_path_scenarios(rng, list(mc.TEMPLATES))
         sc2 = code_area_scenarios(rng)
         sc3 = elf_scenarios(rng)
-        sc4 = prot_history_scenarios(rng, 150 if q else 3000, 10 if q else 16)
+        sc4 = prot_history_scenarios(rng, 150 if q else 3000, 10 if q else 16) + exec_revoke_scenarios(rng) + abutting_scenarios(rng)
         n1, s1, _ = mc.validate(sc1 + sc2 + sc4, wd, "perm", rep, 8 if q else 14)
         n3, s3, _ = mc.validate(sc3, wd, "elf", rep, 8)
         kinds = set()
@@ -166,7 +235,8 @@ def run(tier, seed):
             "mask_x_path_pairs": len(kinds),
             "rule": "case = one access under one permission mask; distinct = (mask, access path) pairs where a path is an API accessor "
                     "(byte/typed, read/write) or a guest template (load/store/imm-store/RMW/PUSH/CALL/fetch); plus constructor code area, "
-                    "ELF text/rodata/data segments and seeded random mem_prot histories",
+                    "ELF text/rodata/data segments, seeded random mem_prot histories, execute permission revoked/re-granted between fetches "
+                    "from the same area, and accesses straddling two abutting areas with different masks",
             "samples": [sc1[5], sc2[0], {"id": sc3[0]["id"], "actions": [a if a["op"] != "from_binary" else {"op": "from_binary", "data": "<generated ELF, 3 PT_LOAD: R+X, R, R+W>"} for a in sc3[0]["actions"]]}],
         })
         rep.assumptions += ["the property's permission model is the oracle (x86 pages cannot express write-only / execute-only)",
